@@ -373,14 +373,17 @@ def make_sets(case, data, ctx):
     raise ValueError(kind)
 
 
-def call_routine(case, data, models, ctx, tap):
+def call_routine(case, data, models, ctx, tap, th=None):
+    """`th`: the parameter objects to hand over (sessions reuse them); default: built from the case"""
+    if th is None:
+        th = thetas(case, models)
     r = case['routine']
     bt = case.get('bt', 'both')
     method = case['method']
     if r == 'fixed':
-        return E.eval_fixed(models, data, theta=thetas(case, models), method=method)
+        return E.eval_fixed(models, data, theta=th, method=method)
     if r == 'bootstrap':
-        kw = dict(theta=thetas(case, models), method=method, N=case['N'],
+        kw = dict(theta=th, method=method, N=case['N'],
                   boot_noise_ceil=case['boot_nc'])
         if bt == 'both':
             return E.eval_bootstrap(models, data, pattern_descriptor=ctx.pd, rdm_descriptor=ctx.rd, **kw)
